@@ -107,6 +107,15 @@ def runOne (keys : Keys) (o : Opts) (arch : Text) (x : One) : Res :=
 def verdictOne (keys : Keys) (o : Opts) (arch : Text) (x : One) (go : Res) : Bool :=
   Spec.acceptableB x.crypto x.codec keys o x.url arch tokA go
 
+/-- the readings of this repository's archive (as verified bytes / as a whole) that the Spec allows to be used -/
+def acceptableCands (keys : Keys) (o : Opts) (arch : Text) (x : One) : List Index :=
+  ([x.codec.indexFromArchive tokR, x.codec.indexFromArchive tokA].filterMap id).filter
+    (fun i => verdictOne keys o arch x (.ok i))
+
+def showPkgs (i : Index) : String := "p" ++ ",".intercalate (i.packages.map String.ofList)
+
+def parsePkgs (s : String) : List Text := (splitList (String.ofList (s.toList.drop 1))).map String.toList
+
 def groups : List String → List One
   | u :: f :: v :: pr :: pw :: rest => mkOne u f v pr pw :: groups rest
   | _ => []
@@ -132,6 +141,7 @@ def handle (args : List String) : Option String :=
            else "fail:accepted-without-valid-signature-over-parsed-bytes")
     some (impl ++ "\t" ++ verdict ++ "\t" ++ (if verdict == "pass" then "-" else "unlisted"))
   | "is.multi" :: mode :: ign :: nosig :: arch :: keys :: goOut :: rest =>
+    -- GetRepositoryIndexes over several repositories; only the package lists are observable
     let o := parseOpts ign nosig
     let ks := parseKeys keys
     let xs := groups rest
@@ -140,17 +150,29 @@ def handle (args : List String) : Option String :=
     let impl :=
       if oks.length != rs.length then "err"
       else if mode == "okerr" then "ok"
-      else "ok " ++ "|".intercalate (oks.map showIdx)
+      else "ok " ++ "|".intercalate (oks.map showPkgs)
     let verdict :=
-      if goOut.startsWith "err" || mode == "okerr" then "pass"
+      if goOut.startsWith "err" then "pass"
+      else if mode == "okerr" then
+        (if xs.all (fun x => !(acceptableCands ks o (unx arch) x).isEmpty) then "pass"
+         else "fail:accepted-an-index-that-has-no-acceptable-reading")
       else
-        let gs := ((goOut.drop 3).toString.splitOn "|").map parseIdx
+        let gs := ((goOut.drop 3).toString.splitOn "|").map parsePkgs
         if gs.length != xs.length then "fail:number-of-indexes"
-        else if (xs.zip gs).all (fun (x, g) => match g with
-            | some i => verdictOne ks o (unx arch) x (.ok i)
-            | none => false) then "pass"
+        else if (xs.zip gs).all (fun (x, g) => (acceptableCands ks o (unx arch) x).any (fun i => i.packages == g)) then "pass"
         else "fail:accepted-without-valid-signature-over-parsed-bytes"
     some (impl ++ "\t" ++ verdict ++ "\t" ++ (if verdict == "pass" then "-" else "unlisted"))
+  | "is.world" :: ign :: nosig :: arch :: keys :: goOut :: rest =>
+    -- ResolveWorld: every resolved package must come from an index that may be used
+    let o := parseOpts ign nosig
+    let ks := parseKeys keys
+    let xs := groups rest
+    let allowed := xs.flatMap (fun x => (acceptableCands ks o (unx arch) x).flatMap (·.packages))
+    let verdict :=
+      if goOut.startsWith "err" then "pass"
+      else if (parsePkgs ((goOut.drop 3).toString)).all (fun r => allowed.contains r) then "pass"
+      else "fail:resolved-package-from-an-index-that-must-not-be-used"
+    some ("-\t" ++ verdict ++ "\t" ++ (if verdict == "pass" then "-" else "unlisted"))
   | _ => none
 
 end Apko.Driver.IndexSig
